@@ -1,22 +1,31 @@
 #!/bin/bash
-# usage: tools/confirm_seeded.sh C04  — confirms a seeded change in a FRESH scratch worktree of /repo:
-# the demo must pass on the clean tree and fail with the change. (The sub-agent's own worktree is not trusted:
-# `git stash` is shared between worktrees.)
+# usage: tools/confirm_seeded.sh C04c [dir]  — confirms a seeded change in a FRESH scratch worktree of /repo:
+# the demo must pass on the clean tree and fail with the change. dir (default /tmp/seed/<name>/SEEDED) holds
+# patch.diff, demo.diff, meta.json. (The sub-agent's own worktree is not trusted: a `cd` into it is stripped from
+# the demo command and its target directory is replaced.)
 P=$1
-S=/tmp/seed/$P/SEEDED
+S=${2:-/tmp/seed/$P/SEEDED}
 W=/tmp/confirm/$P
 rm -rf $W; mkdir -p /tmp/confirm
+git -C /repo worktree prune
 git -C /repo worktree add -q --detach $W HEAD || exit 2
 cd $W
-export CARGO_TARGET_DIR=/tmp/confirm_target
-demo=$(python3 -c "import json;print(json.load(open('$S/meta.json'))['demo_command'])")
-echo "== demo command: $demo"
+export CARGO_TARGET_DIR=/tmp/confirm_target CARGO_NET_OFFLINE=true
+demo=$(python3 - "$S/meta.json" <<'PY'
+import json,sys,re
+d=json.load(open(sys.argv[1]))['demo_command']
+d=re.sub(r'^\s*cd\s+\S+\s*&&\s*','',d)
+d=re.sub(r'CARGO_TARGET_DIR=\S+\s*','',d)
+print(d)
+PY
+)
+echo "== demo command (in a fresh worktree): $demo"
 git apply $S/demo.diff || { echo "demo.diff does not apply"; }
 echo "== without change"
-timeout 2400 bash -c "$demo" > $S/demo_without.log 2>&1; echo "rc=$?"
-grep -E "^test result|panicked|FAILED" $S/demo_without.log | head -4
+timeout 2400 bash -c "$demo" > /tmp/confirm/$P.without.log 2>&1; echo "rc=$?"
+grep -E "^test result|panicked|FAILED" /tmp/confirm/$P.without.log | head -4
 git apply $S/patch.diff || { echo "patch.diff does not apply on top of demo"; }
 echo "== with change"
-timeout 2400 bash -c "$demo" > $S/demo_with.log 2>&1; echo "rc=$?"
-grep -E "^test result|panicked|FAILED" $S/demo_with.log | head -4
+timeout 2400 bash -c "$demo" > /tmp/confirm/$P.with.log 2>&1; echo "rc=$?"
+grep -E "^test result|panicked|FAILED" /tmp/confirm/$P.with.log | head -4
 cd /; git -C /repo worktree remove --force $W
